@@ -2,16 +2,16 @@
 # Maintenance tool: tries the round-4 seeds of the given property ids (patches under /tmp/seed4_<ID>/demo/patch.diff) against the quick check
 cd /verif || exit 2
 for id in "$@"; do
-    p=/tmp/seed4_$id/demo/patch.diff
+    p=/tmp/${SEEDPFX:-seed4}_$id/demo/patch.diff
     [ -f "$p" ] || { echo "$id no-patch"; continue; }
     [ -z "$(git -C /repo status --short -- src)" ] || { echo "/repo/src is not clean"; exit 2; }
     git -C /repo apply --check "$p" 2>/dev/null || { echo "$id does-not-apply"; continue; }
     git -C /repo apply "$p"
     res=missed
     for s in 1 2; do
-        VERIF_SEED=$s ./check "$id" > _work/seed4_$id.$s.log 2>&1
-        if grep -q "^VIOLATION" _work/seed4_$id.$s.log; then res="caught(seed $s)"; break; fi
+        VERIF_SEED=$s ./check "$id" > _work/${SEEDPFX:-seed4}_$id.$s.log 2>&1
+        if grep -q "^VIOLATION" _work/${SEEDPFX:-seed4}_$id.$s.log; then res="caught(seed $s)"; break; fi
     done
     git -C /repo checkout -- src
-    echo "$id $res $(grep '^VIOLATION' _work/seed4_$id.*.log | head -2 | tr '\n' ' ')"
+    echo "$id $res $(grep '^VIOLATION' _work/${SEEDPFX:-seed4}_$id.*.log | head -2 | tr '\n' ' ')"
 done
